@@ -92,8 +92,42 @@ def _algebra_chunk(chunk):
     return len(chunk) * len(probes), nt, fails
 
 
+def _method_part(tier):
+    """the version_compare() method of the build language, on an ordinary string and on meson.version(): a list of constraints holds
+    iff every constraint holds, `!=` ones included — through the real interpreter (one `meson setup --backend=none`)"""
+    import re as _re, sys as _sys
+    from bounded.lang import run_program
+    _sys.path.insert(0, __import__('os').environ.get('VERIF_REPO', '/repo'))
+    from mesonbuild import coredata
+    from mesonbuild.utils.universal import version_compare
+    cur = _re.match(r'[0-9.]+', coredata.version).group(0).rstrip('.')
+    vers = [cur, '0.1', '99.0', cur + '.1']
+    single = [op + v for op in ('>=', '>', '<=', '<', '==', '!=') for v in vers]
+    lists = [[a] for a in single] + [[a, b] for a in single[::2] for b in single[1::3]] + [[a, b, c] for a in single[::5] for b in single[2::7] for c in single[3::6]]
+    if tier == 'quick':
+        lists = lists[:120]
+    lines, exp = [], {}
+    for recv, val in (('meson.version()', coredata.version), (f"'{cur}'", cur)):
+        for cs in lists:
+            i = len(exp)
+            args = ', '.join("'" + c + "'" for c in cs)
+            lines.append(f"message('K{i}', {recv}.version_compare({args}))")
+            exp[f'K{i}'] = (recv, cs, all(version_compare(val, c) for c in cs))
+    rc, out, tail = run_program(lines)
+    fails = []
+    if rc != 0:
+        fails.append({'case': {'program': 'version_compare methods'}, 'stage': 'method', 'detail': 'the program was rejected: ' + tail[-200:]})
+    else:
+        for k, (recv, cs, want) in exp.items():
+            if out.get(k) != ('true' if want else 'false'):
+                fails.append({'case': {'receiver': recv, 'constraints': cs}, 'stage': 'method', 'detail': f'{recv}.version_compare({cs}) evaluates to {out.get(k)}, but {"every constraint holds" if want else "not every constraint holds"}'})
+    return {'name': 'C19/bounded/version_compare-method-of-the-language', 'function': 'StringHolder / MesonVersionStringHolder.version_compare_method (real interpreter)',
+            'bound': f'{len(lists)} constraint lists of 1-3 constraints (6 operators x 4 versions around the running meson version) on meson.version() and on an equal plain string',
+            'evaluations': len(exp), 'distinct_nontrivial': len(exp), 'rule': 'every (receiver, list) pair', 'exhaustive': False, 'failures': fails}
+
+
 def run(REG, tier, seed, jobs):
-    parts = []
+    parts = [_method_part(tier)]
     n = 4 if tier == 'quick' else 5
     ev, nt, fails = pmap(_tok_chunk, chunked(strings(ALPHA, n), 20000), jobs)
     parts.append({'name': 'C19/bounded/Version.__init__==spec_toks', 'function': 'Version.__init__', 'bound': f'all strings of <= {n} characters over {ALPHA!r}',
